@@ -343,7 +343,7 @@ class Gen:
         """shapes aimed at the interaction of branches"""
         sp, r = self.sp, self.r
         Q = self.Quantity
-        k = r.randrange(17)
+        k = r.randrange(18)
         u = self.unit()
         w = self.unit()
         def q(e):
@@ -407,6 +407,11 @@ class Gen:
                 pass
             return r.choice([sp.Add(q(2 * u), sp.nan, evaluate=False), q(2 * u) + qn, qn + q(3 * u) * r.choice([1, 2]),
                              sp.Add(sp.nan, q(2 * u) * q(3 * w), evaluate=False), sp.Add(q(5 * u), qn, q(-1 * u), evaluate=False)])
+        if k == 16:  # a free symbol that does not reach the value (zero factor, unit base): still a free symbol - refused
+            x_ = r.choice([self.x, self.plain])
+            zero = r.choice([q(0 * u), q(3 * u) - q(3 * u)])
+            return r.choice([zero * x_, q(3 * w) * x_ * zero, sp.exp(x_) * zero, q(1) ** x_, u ** x_, q(2 * u) + sp.sqrt(x_) * zero,
+                             q(2 * u) * (1 + 0 * x_) if False else q(2 * u) + zero * x_ ** 2])
         # any-valued operands deciding an unevaluated Min/Max or surviving in a sum
         a = q(r.choice([-3, 5, 2]) * u)
         return r.choice([sp.Max(q(0 * u), a), sp.Min(q(0 * w), a), sp.Max(a, q(0)), a + sp.oo, sp.Min(a, sp.oo * w), a - a + q(0 * w)])
